@@ -232,7 +232,7 @@ class Receiver:
                 },
             )
             dep_ctx = dependency_graph.async_ctx(
-                broker_ctx,
+                dict(broker_ctx),
                 self.broker.dependency_overrides or None,
             )
             # Resolve all function's dependencies.
